@@ -28,14 +28,18 @@ logging.disable(logging.CRITICAL)
 ID = 'C20'
 N = {'quick': 360, 'thorough': 12000}
 LEAN_MODULES = ['GnpyProofs.Props.C20']
+# The model follows the code. /repo still has finding F10 (route entries naming a site promoted to ROADM); once the
+# proposed repair (grp-H report) is committed, set this to True: the model is then told the ROADM cities of the network
+# instead of the cities declared 'ROADM' in the workbook, and the `open:` line of known_findings.txt becomes `fixed:`.
+CODE_HAS_F10_REPAIR = os.environ.get('VERIF_C20_REPAIRED') == '1'
 THEOREMS = [f'Gnpy.Xls.{t}' for t in (
     'rejects_bad_rows', 'sanity_ok_iff', 'both_directions', 'link_west_defaults_to_east', 'link_west_cell_used',
     'endpoints_exist', 'roadm_site_shape', 'degree_ne_2_becomes_roadm', 'ila_fused_site_shape', 'ila_direction_rule',
     'eqpt_faces_neighbour_ila', 'eqpt_faces_neighbour_roadm', 'request_units', 'request_power_monotone',
-    'sync_vector_per_disjoint_entry', 'request_endpoints')]
-PARTIAL = ['uids_unique_partial: uniqueness of the uids is checked by the monitor on every converted workbook and holds for '
-           'the structured names by construction of distinct constructors; the theorem over rendered strings (needs '
-           'injectivity of the f-string rendering for city names without separators, no self-loop rows) is not proved']
+    'sync_vector_per_disjoint_entry', 'request_endpoints', 'names_unique')]
+PARTIAL = ['names_unique is proved for the structured names (Gnpy.Xls.Name) of a workbook without self-loop rows; that the '
+           'rendering of names to uid strings is injective (city names and cable ids without the separators " → ", ")-", '
+           '" to ", " in ") is not proved: the monitor checks the uniqueness of the rendered uids on every converted workbook']
 RULE = ('workbooks generated from one PRNG: 3-8 sites of every declared type (ROADM, ILA, FUSED, empty, unknown spelling), '
         'connected link graphs with degrees 1-4, one- and two-sided Links rows with asymmetric values, Eqpt rows on ROADM '
         'degrees and on ILA sites in either direction with different east/west settings (incl. fused and untyped '
@@ -279,16 +283,30 @@ def gen_eqpt_side(rng):
 
 
 def gen_table(rng, tier, widen):
-    n = rng.randint(3, 6 if tier == 'quick' else 9)
-    cities = [f'{c}{rng.choice(["", "_X", " y"])}' for c in 'ABCDEFGHIJKL'[:n]]
-    # connected graph: random tree + a few extra edges
+    # junction sites joined by a random tree plus extra edges; every junction edge may be subdivided by in-line sites
+    nj = rng.randint(2, 4 if tier == 'quick' else 6)
+    jedges = [(rng.randrange(i), i) for i in range(1, nj)]
+    for _ in range(rng.choice([0, 1, 1, 2])):
+        a, b = rng.sample(range(nj), 2)
+        if (a, b) not in jedges and (b, a) not in jedges:
+            jedges.append((a, b))
+    n = nj
     edges = []
-    for i in range(1, n):
-        edges.append((rng.randrange(i), i))
-    for _ in range(rng.choice([0, 0, 1, 2])):
-        a, b = rng.sample(range(n), 2)
-        if (a, b) not in edges and (b, a) not in edges:
-            edges.append((a, b))
+    for a, b in jedges:
+        prev = a
+        for _ in range(rng.choice([0, 0, 1, 1, 2])):
+            edges.append((prev, n))
+            prev = n
+            n += 1
+        edges.append((prev, b))
+    n = min(n, 12)
+    edges = [(a, b) for a, b in edges if a < n and b < n]
+    # keep the graph connected after the cut: drop sites that lost all their links
+    used = sorted({x for e in edges for x in e})
+    remap = {x: i for i, x in enumerate(used)}
+    edges = [(remap[a], remap[b]) for a, b in edges]
+    n = len(used)
+    cities = [f'{c}{rng.choice(["", "_X", " y"])}' for c in 'ABCDEFGHIJKL'[:n]]
     # lengthen some edges with chains of in-line sites
     deg = [0] * n
     for a, b in edges:
@@ -841,7 +859,8 @@ def run_services(res, case, drv, path, net):
     # (ILA, FUSED, and sites promoted to ROADM by the degree correction) is resolved through amplifier names and the
     # designed network, which the model does not do
     declared = {n['city']: n.get('node_type') for n in tab['nodes']}
-    roadm_cities = [c for c in cities if declared.get(c) == 'ROADM']
+    roadm_cities = [c for c in cities if declared.get(c) == 'ROADM' or
+                    (CODE_HAS_F10_REPAIR and f'roadm {c}' in {n.uid for n in net.nodes()})]
     ambiguous = [c for c in cities if c not in roadm_cities]
     ans = drv.ask('c20.services', rows=[{'kw': to_wire(kw), 'modes': m} for kw, m in rows], bidir=bidir, trx=trx,
                   roadm_cities=roadm_cities, roadm_edfa_uids=[n.uid for n in net.nodes() if isinstance(n, (Roadm, Edfa))],
